@@ -169,7 +169,7 @@ def step (d : Drv) (f0 : List String) : Drv × String :=
         | some m => m.node
         | none => (to + 1) % n
       let m : Msg := ⟨src, ix, ep, round, to⟩
-      let out := (d.s.node to).admit to m
+      let out := (d.s.node to).admission to m
       let s1 := (d.s.recv m)
       -- what the delivery set in motion settles before the next op
       let d1 := { d with s := normalize s1.settle }
